@@ -359,6 +359,19 @@ func (ssc *StatefulSetController) adoptOrphanRevisions(set *apps.StatefulSet) er
 		}
 	}
 	if hasOrphans {
+		// recheck with an uncached read before touching anything, as is done before adopting Pods
+		if canAdoptErr := k8s.RecheckDeletionTimestamp(func(context.Context) (metav1.Object, error) {
+			fresh, err := ssc.pcClient.AppsV1().StatefulSets(set.Namespace).Get(context.TODO(), set.Name, metav1.GetOptions{})
+			if err != nil {
+				return nil, err
+			}
+			if fresh.UID != set.UID {
+				return nil, fmt.Errorf("original StatefulSet %v/%v is gone: got uid %v, wanted %v", set.Namespace, set.Name, fresh.UID, set.UID)
+			}
+			return fresh, nil
+		})(context.TODO()); canAdoptErr != nil {
+			return fmt.Errorf("can't adopt ControllerRevisions: %v", canAdoptErr)
+		}
 		for i := range revisions {
 			if shouldSyncLabels(revisions[i]) {
 				revisions[i], err = syncLabels(ssc.kubeClient, set, revisions[i])
